@@ -8,6 +8,8 @@ VARIABLE sc
 
 MInit == sc \in UniversePart(Part, NParts)
 MNext == UNCHANGED sc
+\* only the trees with a non-regular entry (for the negative control of the walk)
+MInitSpecial == sc \in FileScenariosOf(SpecialTrees)
 
 Files == ~UsesStdin(sc.args)
 LibSc == [sc EXCEPT !.cmd = "lib"]
@@ -29,10 +31,44 @@ LWalk ==
   Files /\ sc.rec => \A k \in DOMAIN sc.args :
     KindAt(sc.tree, sc.args[k]) = "dir" =>
       LET e == ExpandArg(sc.tree, sc.args[k], sc.rec) IN
-      /\ \A i \in DOMAIN e : KindAt(sc.tree, e[i]) \in FileKinds /\ IsPathPrefix(sc.args[k], e[i])
+      /\ \A i \in DOMAIN e : Regular(NodeAt(sc.tree, e[i])) /\ IsPathPrefix(sc.args[k], e[i])
       /\ \A i, j \in DOMAIN e : e[i] = e[j] => i = j
       /\ \A n \in DOMAIN sc.tree :
-           (sc.tree[n].k # "dir" /\ IsPathPrefix(sc.args[k], sc.tree[n].p)) => \E i \in DOMAIN e : e[i] = sc.tree[n].p
+           (Regular(sc.tree[n]) /\ IsPathPrefix(sc.args[k], sc.tree[n].p)) => \E i \in DOMAIN e : e[i] = sc.tree[n].p
+
+\* the walk written like filepath.Walk + callback sends every regular file below the directory to the
+\* readers, once, in walk order - whatever non-regular entries sit before, between or after them - for the
+\* callback of the code and for one that passes non-regular entries over silently
+WalkLaw(policy) ==
+  Files /\ sc.rec => \A k \in DOMAIN sc.args :
+    KindAt(sc.tree, sc.args[k]) = "dir" =>
+      LET w == WalkImpl(sc.tree, sc.args[k], policy) IN
+      /\ RegularOnly(sc.tree, w) = ExpandArg(sc.tree, sc.args[k], sc.rec)
+      /\ \A i, j \in DOMAIN w : w[i] = w[j] => i = j
+      /\ {w[i] : i \in DOMAIN w} \subseteq WalkSet(sc.tree, sc.args[k]) \cup WalkMay(sc.tree, sc.args[k])
+LWalkImpl == WalkLaw("code") /\ WalkLaw("regular")
+\* negative control (must be REFUTED): answering filepath.SkipDir for a FIFO / socket / device node
+CtlWalkSkipdir == WalkLaw("skipdir")
+
+\* non-regular entries below a -R directory change nothing about what is demanded: same mentions and same
+\* outcome as in the tree without them; without such entries exactly one end of the run is allowed
+LSpecial ==
+  LET keep == SelectSeq(sc.tree, LAMBDA n : n.p \notin MayPaths(sc))
+      bare == [sc EXCEPT !.tree = keep] IN
+  /\ Mentions(bare) = Mentions(sc) /\ OutcomeFull(bare) = OutcomeFull(sc)
+  /\ MayTotal(bare) = 0 /\ AllowedEnd(OutcomeFull(bare), 0) = {<<OutcomeFull(sc).exit, OutcomeFull(sc).msg>>}
+  /\ <<OutcomeFull(sc).exit, OutcomeFull(sc).msg>> \in AllowedEnd(OutcomeFull(sc), MayTotal(sc))
+  /\ MayTotal(sc) > 0 => <<2, "read">> \in AllowedEnd(OutcomeFull(sc), MayTotal(sc))
+  /\ MayTotal(sc) >= Cardinality(MayPaths(sc))
+
+\* a gzip file of several members is the gzip file of the concatenation: all members are delivered
+LMembers ==
+  \A j \in DOMAIN sc.tree :
+    sc.tree[j].k = "mgz" =>
+      LET ms == Members(sc.tree[j]) IN
+      /\ Len(ms) >= 2 /\ Flatten(ms) = sc.tree[j].data
+      /\ [i \in DOMAIN ms |-> Len(ms[i])] = sc.tree[j].mem
+      /\ OutcomeFull(sc) = OutcomeFull([sc EXCEPT !.tree[j].k = "gz", !.tree[j].mem = <<>>])
 
 \* an argument is never dropped: a glob/path without hits is kept literally and is reported
 LLiteral ==
@@ -86,13 +122,14 @@ LPlainUnderZ ==
 \* gzip content is delivered decompressed: same outcome as the plain file with that content
 LDecoded ==
   \A j \in DOMAIN sc.tree :
-    (sc.gz /\ sc.tree[j].k = "gz") => OutcomeFull(sc) = OutcomeFull([sc EXCEPT !.tree[j].k = "file"])
+    (sc.gz /\ sc.tree[j].k \in {"gz", "mgz"}) =>
+       OutcomeFull(sc) = OutcomeFull([sc EXCEPT !.tree[j].k = "file", !.tree[j].mem = <<>>])
 
 \* the transport is transparent: a FIFO, /dev/stdin or a process substitution delivers, and fails,
 \* exactly like the regular file with the same bytes - although it cannot be rewound and reports size 0
 LTransport ==
   \A j \in DOMAIN sc.tree :
-    sc.tree[j].tr = "pipe" =>
+    (sc.tree[j].tr = "pipe" /\ sc.tree[j].p \notin MayPaths(sc)) =>
       LET asreg == [sc EXCEPT !.tree[j].tr = "reg"] IN
       /\ ReportedSize(sc.tree[j].k, sc.tree[j].data, "pipe") = 0
       /\ Mentions(asreg) = Mentions(sc)
